@@ -1,4 +1,4 @@
-\* generated with the builder script of C02/C08; families: MCSearchers.tla
+\* generated by mkcfg_searchers.py; families and layouts: MCSearchers.tla
 SPECIFICATION Spec
 CONSTANTS
   SegSizes <- Segs21
@@ -11,10 +11,10 @@ CONSTANTS
   Family = "deepq"
   DropK1 = FALSE
   Queries <- MCQueries
-  FixEmptySnapshot = FALSE
-  FixBoolAdvance = FALSE
+  FixEmptySnapshot = TRUE
+  FixBoolAdvance = TRUE
   FixShouldMin = FALSE
-  FirstAdvanceOK <- FirstAdvNoQ2
+  FirstAdvanceOK <- FirstAdvAlways
 VIEW View
 INVARIANT ResultOK
 INVARIANT NoPanic
